@@ -631,7 +631,7 @@ func (m *Machine) exec(fr *frame, s ast.Stmt) (ctrl, Value, error) {
 					return 0, nil, err
 				}
 				eq := m.equal(e.Pos(), tag, v)
-				b, err := m.truth(e.Pos(), eq, fmt.Sprintf("%d:case", e.Pos()))
+				b, err := m.truth(e.Pos(), eq, fmt.Sprintf("%d:%s", e.Pos(), TermOf(eq)))
 				if err != nil {
 					return 0, nil, err
 				}
